@@ -78,6 +78,50 @@ def _values(r, width, old, n, off):
     return r.choice(c) & ((1 << top) - 1)
 
 
+def _hdr2_files(files, raws, n):
+    """A few small, structurally different seeds: relocatable (e_phoff == 0), executable/shared, big-endian, 32-bit."""
+    picks = []
+    seen = set()
+    for f in sorted(files, key=lambda f: len(raws[f].data)):
+        r = raws[f]
+        if not r.ok or not r.sections:
+            continue
+        sig = (r.cls, r.le, r.eh['e_phoff'] == 0)
+        if sig in seen:
+            continue
+        seen.add(sig)
+        picks.append(f)
+    return picks[:n]
+
+
+def _hdr2_values(w, n):
+    top = 8 * w
+    return sorted(set(v & ((1 << top) - 1) for v in (0, 1, (1 << top) - 1, (1 << top) - 2, n, (1 << (top - 1)), 0xff00, 0xffff)))
+
+
+def _hdr2_pairs(raw):
+    n = len(raw.data)
+    a = [(o, w, 'Ehdr.' + nm) for nm, o, w in raw.ehdr_fields]
+    b = list(a)
+    idx = [0]
+    si = raw.eh['e_shstrndx']
+    if 0 < si < len(raw.sections):
+        idx.append(si)
+    for i in idx:
+        s = raw.sections[i]
+        for nm, o, w in raw.shdr_fields:
+            b.append((s['_off'] + o, w, 'Shdr[%d].%s' % (i, nm)))
+    pairs = []
+    for (o1, w1, l1) in a:
+        for v1 in _hdr2_values(w1, n):
+            for (o2, w2, l2) in b:
+                if o2 <= o1 and l2.startswith('Ehdr.'):
+                    continue
+                for v2 in _hdr2_values(w2, n):
+                    pairs.append((o1, w1, v1, o2, w2, v2))
+    return pairs
+
+
 def prepare(prop, tier, seed, only=None):
     files = _seed_files()
     raws = {}
@@ -102,6 +146,13 @@ def prepare(prop, tier, seed, only=None):
         total += len(lens)
         plan.append(('sub', f, total, total + 256, None))
         total += 256
+    # enumerated pairs of header-field corruptions: (Ehdr field, value) x (Ehdr | Shdr[0] | Shdr[shstrndx] field, value);
+    # the extended-numbering escapes need two or three fields to line up, which sampling alone finds too rarely
+    hdr2_files = _hdr2_files(files, raws, 3 if tier == 'quick' else 10)
+    for f in hdr2_files:
+        pairs = _hdr2_pairs(raws[f])
+        plan.append(('hdr2', f, total, total + len(pairs), pairs))
+        total += len(pairs)
     plan.append(('field', None, total, total + n_field, None))
     total += n_field
     plan.append(('bytes', None, total, total + n_bytes, None))
@@ -139,6 +190,14 @@ def gen_spec(prop, tier, seed, index):
         old = data[pos]
         v = [0x00, 0xff, (old + 1) & 0xff, old ^ 0x80][vi]
         return dict(engine=ENGINE, kind='sub', image=f, eof=None, subs={str(pos): v})
+    if kind == 'hdr2':
+        o1, w1, v1, o2, w2, v2 = extra[k]
+        raw = _STATE['raws'][f]
+        subs = {}
+        for o, w, v in ((o1, w1, v1), (o2, w2, v2)):
+            for i, b in enumerate(v.to_bytes(w, raw.bo)):
+                subs[str(o + i)] = b
+        return dict(engine=ENGINE, kind='hdr2', image=f, eof=None, subs=subs)
     rs = run_seed(seed, 'C19', tier, index)
     r = substream(rs, 'faults')
     if kind == 'field':
@@ -350,16 +409,6 @@ def execute_index(prop, tier, seed, index):
     return execute_spec(gen_spec(prop, tier, seed, index))
 
 
-def on_harness_failure(prop, tier, seed, index, status, detail):
-    """A run that the wall-clock watchdog had to kill: a loop that performs no stream
-    operation (invisible to the I/O clock).  Reported as a hang with its explicit spec."""
-    if status != 'timeout':
-        return None
-    spec = gen_spec(prop, tier, seed, index)
-    return dict(key='hang|wall-watchdog|no-io-loop', check='watchdog', expected='terminates', observed='killed after %ss' % detail,
-                spec=spec)
-
-
 def minimise(spec, key, still_fails, deadline):
     spec = dict(spec)
     subs = dict(spec.get('subs') or {})
@@ -410,12 +459,17 @@ def prepare_replay(prop, spec):
     pass
 
 
+def spec_for(prop, tier, seed, index):
+    return gen_spec(prop, tier, seed, index)
+
+
 def describe(prop):
     return dict(
         level='fault_enumeration',
         rule=('run = (seed image, stored-byte fault) -> ELFFile(stream) -> fixed enumeration battery under budgets on the I/O clock. '
               'Enumerated: trunc(L) for every L in [0, min(len,4096)] and b-1,b,b+1 at every structural boundary; sub(pos,v) for pos<64, '
-              'v in {0x00,0xff,old+1,old^0x80} (quick: a seeded third of the seed images, thorough: all). Sampled: 1-4 simultaneous '
+              'v in {0x00,0xff,old+1,old^0x80} (quick: a seeded third of the seed images, thorough: all); hdr2: every pair (Ehdr field, value) x '
+              '(Ehdr / Shdr[0] / Shdr[e_shstrndx] field, value) over 8 boundary values on 3 (quick) / 10 (thorough) structurally different seeds. Sampled: 1-4 simultaneous '
               'structure-aware field corruptions (Ehdr/Shdr/Phdr fields, words inside dynamic/note/hash/version/symbol extents) and random byte strings. '
               'A run is non-trivial when the fault fired, i.e. the library read a substituted byte or hit the injected end of file; '
               'distinct = distinct (image, overlay) digests among those'),
